@@ -234,6 +234,39 @@ struct Case {
     use_characters: bool,
     char_grams: u8,
     threads: Vec<u8>,
+    /// how each file is written (`TERM_*`); empty = every line of every file ends in "\n"
+    term: Vec<u8>,
+}
+
+/// every line ends in "\n"
+const TERM_LF: u8 = 0;
+/// the last line of the file has no line terminator (needs a non-empty last line to be the same lines)
+const TERM_LAST_OPEN: u8 = 1;
+/// every line ends in "\r\n"
+const TERM_CRLF: u8 = 2;
+
+/// the bytes of a file with the given lines
+fn file_body(lines: &[String], term: u8) -> String {
+    let nl = if term == TERM_CRLF { "\r\n" } else { "\n" };
+    let mut s: String = lines.iter().map(|l| format!("{l}{nl}")).collect();
+    if term == TERM_LAST_OPEN && lines.last().map(|l| !l.is_empty()).unwrap_or(false) {
+        s.truncate(s.len() - 1);
+    }
+    s
+}
+
+/// the ways of writing the files other than all-LF: every non-empty set of files whose (non-empty)
+/// last line is left unterminated, and all files with CRLF line ends
+fn term_patterns(files: &[Vec<String>]) -> Vec<Vec<u8>> {
+    let n = files.len();
+    let mut out = vec![];
+    for mask in 1u32..(1 << n) {
+        if (0..n).all(|i| mask & (1 << i) == 0 || files[i].last().map(|l| !l.is_empty()).unwrap_or(false)) {
+            out.push((0..n).map(|i| if mask & (1 << i) != 0 { TERM_LAST_OPEN } else { TERM_LF }).collect());
+        }
+    }
+    out.push(vec![TERM_CRLF; n]);
+    out
 }
 
 fn opt_json(o: Option<usize>) -> Value {
@@ -243,7 +276,8 @@ fn opt_json(o: Option<usize>) -> Value {
 impl Case {
     fn json(&self) -> Value {
         json!({"files": self.files, "max_size": opt_json(self.max_size), "max_sequences": opt_json(self.max_sequences),
-               "use_characters": self.use_characters, "char_grams": self.char_grams, "num_threads": self.threads})
+               "use_characters": self.use_characters, "char_grams": self.char_grams, "num_threads": self.threads,
+               "line_termination_per_file": self.term.iter().map(|t| match *t { TERM_LAST_OPEN => "last line unterminated", TERM_CRLF => "crlf", _ => "lf" }).collect::<Vec<_>>()})
     }
     fn from_json(v: &Value) -> Case {
         let opt = |x: &Value| x.as_u64().map(|n| n as usize);
@@ -254,6 +288,7 @@ impl Case {
             use_characters: v["use_characters"].as_bool().unwrap(),
             char_grams: v["char_grams"].as_u64().unwrap() as u8,
             threads: v["num_threads"].as_array().unwrap().iter().map(|t| t.as_u64().unwrap() as u8).collect(),
+            term: v["line_termination_per_file"].as_array().map(|a| a.iter().map(|t| match t.as_str() { Some("last line unterminated") => TERM_LAST_OPEN, Some("crlf") => TERM_CRLF, _ => TERM_LF }).collect()).unwrap_or_default(),
         }
     }
 }
@@ -267,8 +302,11 @@ struct Ctx {
 
 fn check_case(run: &mut Run, ctx: &mut Ctx, case: &Case) {
     let paths: Vec<std::path::PathBuf> = (0..case.files.len()).map(|i| ctx.scratch.path(&format!("f{i}.txt"))).collect();
-    for (p, f) in paths.iter().zip(&case.files) {
-        std::fs::write(p, f.iter().map(|l| format!("{l}\n")).collect::<String>()).expect("cannot write file");
+    for (i, (p, f)) in paths.iter().zip(&case.files).enumerate() {
+        std::fs::write(p, file_body(f, case.term.get(i).copied().unwrap_or(TERM_LF))).expect("cannot write file");
+    }
+    if case.term.iter().any(|t| *t != TERM_LF) {
+        run.count("configurations with an unterminated last line or CRLF line ends");
     }
     let reference = reference_counts(&case.files, case.max_sequences, case.use_characters, case.char_grams);
     let tie = tie_at_cut(&reference, case.max_size);
@@ -375,7 +413,7 @@ fn sched_units(quick: bool) -> Vec<(Vec<Vec<String>>, Option<usize>, Option<usiz
         // more lines than the channel holds, every line with the same word: a worker meets a full
         // channel (when the reducer is scheduled late) and then counts the same word again
         (f(&[&["a", "a", "a", "a"]]), Some(10), None, false, 1, 1, 99),
-        (f(&[&["a b", "a", "b a", "a", "a"]]), Some(10), None, false, 1, 2, 99),
+        (f(&[&["a b", "a", "b a", "a", "a"]]), Some(10), None, false, 1, 2, if quick { 1 } else { 99 }),
     ];
     if !quick {
         u.push((f(&[&["a", "a"], &["a", "b"]]), Some(2), None, true, 1, 2, 99));
@@ -537,13 +575,24 @@ fn main() {
     let cases_of = |unit: usize| -> Vec<Case> {
         let files = &sets[unit / per_set];
         let k = unit % per_set;
-        let mk = |max_size, max_sequences, (use_characters, char_grams): (bool, u8)| Case { files: files.clone(), max_size, max_sequences, use_characters, char_grams, threads: THREADS.to_vec() };
+        let mk = |max_size, max_sequences, (use_characters, char_grams): (bool, u8)| Case { files: files.clone(), max_size, max_sequences, use_characters, char_grams, threads: THREADS.to_vec(), term: vec![] };
         if k == 0 {
             let mut v = vec![];
+
             for ms in MAX_SIZES.iter().filter(|m| m.is_some()) {
                 for mq in MAX_SEQS {
                     for mode in MODES {
                         v.push(mk(*ms, mq, mode));
+                    }
+                }
+            }
+            // the other ways of writing the same lines to the files, with the largest finite max_size
+            for term in term_patterns(files) {
+                for mq in MAX_SEQS {
+                    for mode in MODES {
+                        let mut c = mk(Some(10), mq, mode);
+                        c.term = term.clone();
+                        v.push(c);
                     }
                 }
             }
@@ -566,7 +615,7 @@ fn main() {
             if cs.len() == 1 {
                 println!("{}", cs[0].json());
             } else {
-                println!("{}", json!({"files": cs[0].files, "grid": "max_size {0,1,2,10} x max_sequences {None,0,1,2} x {words, chars(1), chars(3)} x num_threads {0,1,2,3}"}));
+                println!("{}", json!({"files": cs[0].files, "grid": "max_size {0,1,2,10} x max_sequences {None,0,1,2} x {words, chars(1), chars(3)} x num_threads {0,1,2,3}; with max_size 10 additionally every other way of terminating the lines (any set of files with an unterminated last line; CRLF)"}));
             }
         } else {
             println!("{}", json!({"unit": n, "description": "no such unit"}));
